@@ -70,11 +70,11 @@ class EffectScanner:
         if hasattr(target, "module") and is_file_manager(target):
             effs.append(Effect("fm", target.name, call, chain, args=call.args, fn=target))
             return effs
-        if last in self.send_names and (d is None or d.split(".")[0] in ("self",) or len(d.split(".")) == 1):
+        if last in self.send_names and d is not None and not is_file_manager(target if hasattr(target, "module") else None):
             # self.send_message(T, content, **kw) / send_message(ws, sid, T, content) / self._send_message(T, content, **kw)
             args = list(call.args)
             kw = {k.arg: k.value for k in call.keywords if k.arg}
-            if d and d.startswith("self."):
+            if d and len(d.split(".")) >= 2:
                 tnode = args[0] if args else kw.get("msg_type")
                 cnode = args[1] if len(args) > 1 else kw.get("content")
             else:
